@@ -23,7 +23,7 @@ EXTRA_IMPORTS = 'From PJ Require Import Model.Http.\n'
 RULE = ('integrations {aiohttp, flask, werkzeug} through their own test clients x Content-Type values (each documented type, with a '
         'charset parameter, upper / mixed case, spaces around, trailing ";", near misses application/jsonx, application/json-rpc2, '
         'application/foo+json, application/x-json, text/plain, the empty string, header missing) x bodies (call, call answered with an '
-        'error, call raising, unknown method, notification, batch, all-notification batch, invalid request, non-JSON text, a BOM-prefixed call / notification, non-UTF-8 '
+        'error, call raising, unknown method, calls whose parameters do not bind, notification, batch, all-notification batch, invalid request, non-JSON text, a BOM-prefixed call / notification, non-UTF-8 '
         'bytes) x status-by-error functions (default, a code table, a table answering 207 when nothing failed) x endpoints (main, an added endpoint with its own methods). The '
         'dispatcher verdict for each body is obtained independently from a plain Dispatcher with the same methods. distinct = distinct '
         '(integration, header, body, status function, endpoint); non-trivial = the media type is a documented one')
@@ -40,6 +40,8 @@ BODIES = {
     'err': b'{"jsonrpc":"2.0","id":"e","method":"fail"}',
     'boom': b'{"jsonrpc":"2.0","id":3,"method":"boom"}',
     'unknown': b'{"jsonrpc":"2.0","id":4,"method":"nosuch"}',
+    'badparams': b'{"jsonrpc":"2.0","id":5,"method":"add","params":[1]}',          # does not bind: -32602 with a data member
+    'badnamed': b'{"jsonrpc":"2.0","id":6,"method":"add","params":{"a":1,"zz":2}}',
     'note': b'{"jsonrpc":"2.0","method":"add","params":[1,2]}',
     'batch': b'[{"jsonrpc":"2.0","id":1,"method":"add","params":[1,2]},{"jsonrpc":"2.0","method":"add","params":[3,4]},{"jsonrpc":"2.0","id":2,"method":"fail"}]',
     'notes': b'[{"jsonrpc":"2.0","method":"add","params":[1,2]},{"jsonrpc":"2.0","method":"boom"}]',
